@@ -494,6 +494,9 @@ def analyze(ctx, want):
         reg_ = at(lambda t_: "CharacterClassRegistry" in t_)
         sc_ = at(lambda t_: "Scope" in t_)
         dfa_ = at(lambda t_: "compiled_dfa::CompiledDfa" in t_)
+        if pre_ is None:
+            # the prefix may be generic (`impl AsRef<str>`): it is the one parameter that is none of the others
+            pre_ = at(lambda t_: not any(x_ in t_ for x_ in ("CharacterClassRegistry", "Scope", "compiled_dfa::CompiledDfa", "StateData", "(bool, internal::ids::TerminalID)")))
         if dfa_ is None:
             # the automaton handed over as its two lists: both must come from the same automaton
             st_ = at(lambda t_: "StateData" in t_)
